@@ -455,18 +455,46 @@ def asset_lookup(ctx: Ctx) -> None:
     HIT, SP, CI, MATCH = f"{prop} in {sn}._cache", SPV, ci, f"ASSET_DEFINITIONS[{prop}].matches({item})"
     lookup = f"{sn}._get_case_insensitive_path({sn}._path.join({sn}.simfile_dir, {SPV}))"
 
+    from ..flow import call_args as _ca
+    cpp = cp.param_names()[1:]
+    cpd = {}
+    a_ = cp.node.args
+    pos_ = a_.posonlyargs + a_.args
+    for arg_, d_ in zip(pos_[len(pos_) - len(a_.defaults):], a_.defaults):
+        cpd[arg_.arg] = ast.unparse(d_)
+    for arg_, d_ in zip(a_.kwonlyargs, a_.kw_defaults):
+        if d_ is not None:
+            cpd[arg_.arg] = ast.unparse(d_)
+
+    def canon_cache_call(v):
+        """_cache_path(..) with its arguments bound to the parameters (keyword or positional, defaults filled in): one text per meaning."""
+        if isinstance(v, ast.Call) and ast.unparse(v.func) == f"{sn}._cache_path" and not any(isinstance(x, ast.Starred) for x in v.args) and all(k.arg for k in v.keywords):
+            bound = {}
+            for q, x in zip(cpp, v.args):
+                bound[q] = ast.unparse(x)
+            for k in v.keywords:
+                bound[k.arg] = ast.unparse(k.value)
+            for q in cpp:
+                bound.setdefault(q, cpd.get(q, "<missing>"))
+            return f"{sn}._cache_path(" + ", ".join(f"{q}={bound[q]}" for q in cpp) + ")"
+        return ast.unparse(v) if v is not None else "None"
+
     def out(s_):
         k, v = s_.terminal()
         v = closed(s_, v)
-        t = "return " + (ast.unparse(v) if v is not None else "None") if k == "return" else terminal_text(s_)
+        t = "return " + canon_cache_call(v) if k == "return" else terminal_text(s_)
         return t + (EARLY if leaves_loop_early(s_) else "")
+
+    def cache_text(path_text: str, absolute: str) -> str:
+        vals = dict(zip(cpp, [prop, path_text, absolute]))
+        return f"{sn}._cache_path(" + ", ".join(f"{q}={vals.get(q, cpd.get(q))}" for q in cpp) + ")"
 
     def spec(a):
         if a[HIT]:
             return f"return {sn}._cache[{prop}]"
         if a[SP] and a[CI]:
-            return f"return {sn}._cache_path({prop}, {lookup}, absolute=True)"
-        return f"return {sn}._cache_path({prop}, {item})" + EARLY if a[MATCH] else f"return {sn}._cache_path({prop}, None)"
+            return "return " + cache_text(lookup, "True")
+        return "return " + cache_text(item, "False") + EARLY if a[MATCH] else "return " + cache_text("None", "False")
 
     decs = []
     for s_ in sums:
